@@ -27,14 +27,31 @@ def table_rows(l):
     return len(re.findall(r"^def STRATEGY4_r\d+ ", t, re.M)), len(re.findall(r"^def strategies_r\d+ ", t, re.M))
 
 
-def load_extra_known(ctx, prop):
-    """proposed known findings of this property (notes/known_findings_<prop>.json, committed, never written at run time)"""
-    p = os.path.join(vlib.ROOT, "notes", "known_findings_%s.json" % prop)
-    if os.path.exists(p):
-        have = {k.get("key") for k in ctx.known}
-        for k in json.load(open(p)).get("findings", []):
-            if k.get("property") == prop and k.get("key") not in have:
-                ctx.known.append(k)
+def run_c(cmd, lines, timeout=240, env=None):
+    """vlib.run_c with a timeout: a hang of the real code is a result (rc = -999)"""
+    try:
+        return vlib.run_c(cmd, lines, timeout=timeout, env=env)
+    except subprocess.TimeoutExpired:
+        return -999, [], "TIMEOUT: the real code did not terminate within %d s" % timeout
+
+
+def correspond(ctx, name, lines, c_cmd, timeout=300):
+    """vlib.correspond with a timeout on the C side (a traversal that no longer terminates is a result)"""
+    rc, cout, cerr = run_c(c_cmd, lines, timeout=timeout)
+    mout = ctx.driver(lines)
+    dis = []
+    for i, l in enumerate(lines):
+        c = cout[i] if i < len(cout) else "<no output: C driver stopped, rc=%d %s>" % (rc, cerr[-120:] if rc == -999 else "")
+        m = mout[i] if i < len(mout) else "<no output>"
+        if c != m:
+            dis.append(dict(index=i, op=l, impl=c, model=m))
+            if i >= len(cout):
+                dis[-1]["stderr"] = cerr[-1500:]
+                break
+    ctx.evaluations += len(lines)
+    ctx.obligation("correspondence " + name + " (%d ops)" % len(lines), not dis, json.dumps(dis[:5])[:600] if dis else "")
+    ctx.coverage.setdefault("correspondence", {})[name] = dict(ops=len(lines), disagreements=len(dis))
+    return dis
 
 
 def hx(v):
@@ -62,6 +79,7 @@ def check_e2e(args):
     try:
         n = int(t[0][2:], 16)
         above = int(t[1].split("=")[1])
+        sing = int(t[2].split("=")[1])
         i = t.index("dom"); A = co.parse_fp2(t[i + 1])
         i = t.index("pts"); pts = [co.parse_fp2(x) for x in t[i + 1:i + 6]]
         i = t.index("naive"); An = co.parse_fp2(t[i + 1]); pn = [co.parse_fp2(x) for x in t[i + 2:i + 7]]
@@ -95,12 +113,16 @@ def check_e2e(args):
             fails.append("strategy: Weil pairing of the pushed basis is not the original raised to 2^n")
         if K.pow(e0, 2 ** (f - 1)) == (1, 0):
             fails.append("harness: input basis pairing not of full order (generator problem)")
-    return ("n=%d:above=%d" % (n, above), fails, dict(n=n, above=above, strat=strat))
+        if "again" in t:
+            Ag = co.parse_fp2(t[t.index("again") + 1])
+            if co.Curve.montgomery(K, Ag).j() != j:
+                fails.append("reuse: a second ec_eval_even on the same ec_isog_even_t returns a different curve (phi->curve.A24 clobbered)")
+    return ("n=%d:above=%d" % (n, above), fails, dict(n=n, above=above, strat=strat, sing=sing))
 
 
 def run_e2e(ctx, l, exe, cases, tag):
     lines = [c[0] for c in cases]
-    rc, outs, err = vlib.run_c([exe], lines)
+    rc, outs, err = run_c([exe], lines, timeout=90 if ctx.quick else 1200)
     jobs = []
     for i, ln in enumerate(lines):
         if i >= len(outs):
@@ -114,10 +136,16 @@ def run_e2e(ctx, l, exe, cases, tag):
         for (ln, key), (sfx, fails, st) in zip([(c[0], c[1]) for c in cases], ex.map(check_e2e, jobs, chunksize=2)):
             ctx.case("e2e:L%d:%s" % (l, sfx))
             if st:
-                h = "L%d above=%d %s" % (l, st["above"], "strategy+naive" if st["strat"] else "naive-only")
+                h = "L%d above=%d first-step-kernel=%s %s" % (l, st["above"], {1: "(1:1)", -1: "(-1:1)", 0: "generic"}[st["sing"]],
+                                                                   "ec_eval_even+naive" if st["strat"] else "naive-only")
                 hist[h] = hist.get(h, 0) + 1
             if fails:
-                if ctx.violation("e2e:L%d:%s:%s" % (l, sfx, fails[0].split(":")[0]),
+                cls = fails[0].split(":")[0]
+                if all(x.startswith("reuse") for x in fails):
+                    key = "even:reuse-phi:A24-clobbered:L%d" % l
+                else:
+                    key = "e2e:L%d:%s:%s" % (l, sfx, cls)
+                if ctx.violation(key,
                                  "2^n-isogeny evaluation disagrees with the independent quotient-isogeny oracle: " + "; ".join(fails),
                                  dict(level=l, op=ln, failed=fails, how="tools/harness/drv_chain.c op line; oracle tools/props/chain_oracle.py")):
                     bad += 1
@@ -135,6 +163,18 @@ def e2e_cases(ctx, l, ns):
     return cases
 
 
+def singular_cases(ctx, l, rows, k):
+    """extra kernels above (0,0) on random-walk curves at in-range lengths: both shapes (1:1) / (-1:1) of the order-4
+    point of the singular first step must be exercised"""
+    rng = ctx.rng.fork("sing%d" % l)
+    f = LV[l]["f"]
+    out = []
+    for i in range(k):
+        n = f - rng.below(rows)
+        out.append((e2e_line(rng, l, n, 1, 1 + rng.below(2)), "n=%d:above=1:extra%d" % (n, i)))
+    return out
+
+
 def sample_lengths(ctx, l, rows, k):
     f = LV[l]["f"]
     lo = f - rows + 1
@@ -149,7 +189,7 @@ def sample_lengths(ctx, l, rows, k):
 # ------------------------------------------------------------------------------------------------ traces
 def trace_stage(ctx, l, exe, ns):
     lines = ["even.trace %x %x" % (l, n) for n in ns]
-    dis = vlib.correspond(ctx, "ec_eval_even_strategy trace L%d" % l, lines, [exe])
+    dis = correspond(ctx, "ec_eval_even_strategy trace L%d" % l, lines, [exe], timeout=90 if ctx.quick else 1200)
     for n in ns:
         ctx.case("trace:L%d:n=%d" % (l, n))
     return [(int(d["op"].split()[2], 16), d) for d in dis]
@@ -163,8 +203,9 @@ def classify_trace_disagreement(ctx, l, exe, n, d):
     if len(ctx.violations) == before:
         # codomain still right: does the real traversal leave its arrays? (sanitizer build, same op)
         try:
+            san_build(ctx, (l,))
             sexe = ctx.cc_harness(DRV, os.path.join(ctx.tmp, "drv_chain_san%d" % l), l, san=True)
-            rc, outs, err = vlib.run_c([sexe], [d["op"]], env={"UBSAN_OPTIONS": "print_stacktrace=0"})
+            rc, outs, err = run_c([sexe], [d["op"]], timeout=60, env={"UBSAN_OPTIONS": "print_stacktrace=0"})
             if rc != 0 and ("AddressSanitizer" in err or "runtime error" in err):
                 ctx.violation("trace:L%d:n=%d:memory" % (l, n), "ec_eval_even_strategy leaves its arrays on a table length (sanitizer abort)",
                               dict(level=l, isog_len=n, op=d["op"], sanitizer=err[-1200:], model=d["model"][:300], impl=d["impl"][:300]))
@@ -176,6 +217,26 @@ def classify_trace_disagreement(ctx, l, exe, n, d):
 
 
 # ------------------------------------------------------------------------------------------------ search
+def real_code_on(ctx, l, n):
+    """replay a length on the real code: sanitizer verdict of the traversal and the end-to-end oracle"""
+    out = {}
+    try:
+        san_build(ctx, (l,))
+        sexe = ctx.cc_harness(DRV, os.path.join(ctx.tmp, "drv_chain_san%d" % l), l, san=True)
+        op = "even.trace %x %x" % (l, n)
+        rc, outs, err = run_c([sexe], [op], timeout=60, env={"UBSAN_OPTIONS": "print_stacktrace=0"})
+        out["sanitizer_op"] = op
+        out["sanitizer"] = err[-600:] if rc != 0 else "no abort"
+        exe = ctx.cc_harness(DRV, os.path.join(ctx.tmp, "drv_chain_r%d" % l), l)
+        line = e2e_line(ctx.rng.fork("replay"), l, n, 0, 0)
+        rc, outs, err = run_c([exe], [line], timeout=60)
+        out["e2e_op"] = line
+        out["e2e"] = check_e2e((l, line, outs[0]))[1] if outs else "crash rc=%d" % rc
+    except Exception as e:
+        out["error"] = str(e)[:300]
+    return out
+
+
 def search(ctx):
     """a proof obligation broke: look for a concrete length on which the model faults or the real code is wrong"""
     ctx.lake(["driver"])
@@ -183,16 +244,18 @@ def search(ctx):
         for l in (1, 3, 5):
             rows, _ = table_rows(l)
             f = LV[l]["f"]
-            ns = list(range(f - rows + 1, f + 1))
-            outs = ctx.driver(["even.summary %x %x" % (l, n) for n in ns])
+            ns = list(range(1, f + 4))
+            outs = ctx.driver(["even.top %x %x" % (l, n) for n in ns])
             for n, o in zip(ns, outs):
                 t = o.split()
-                if len(t) != 5 or t[0] != "0" or int(t[1], 16) != n // 2 - 1 or int(t[2], 16) != n:
+                if len(t) != 3 or t[1] != "0" or int(t[2], 16) != n:
                     tr = ctx.driver(["even.trace %x %x" % (l, n)])[0]
-                    return ("model:L%d:row=%d" % (l, f - n),
-                            "strategy row does not drive ec_eval_even_strategy correctly (model run: fault / wrong number of steps)",
-                            dict(level=l, isog_len=n, row=f - n, model_summary=o, model_trace_tail=tr[-300:],
-                                 how="lean driver: even.trace %x %x ; real code: tools/harness/drv_chain.c even.e2e" % (l, n)))
+                    real = real_code_on(ctx, l, n)
+                    return ("model:L%d:len=%d" % (l, n),
+                            "ec_eval_even (guard as written in the C + strategy table) does not evaluate a chain of length %d correctly "
+                            "(model run: fault / wrong number of steps)" % n,
+                            dict(level=l, isog_len=n, row=f - n, model_summary=o, model_trace_tail=tr[-300:], real_code=real,
+                                 how="lean driver: even.top %x %x ; real code: tools/harness/drv_chain.c even.trace / even.e2e (sanitizer build)" % (l, n)))
     except Exception as e:
         ctx.log("search: model run failed: %s" % e)
     # model fine on every row: try the real code end to end on every table length of level 1 and a sample of 3, 5
@@ -213,29 +276,40 @@ def search(ctx):
 
 
 # ------------------------------------------------------------------------------------------------ probes
-def probes(ctx, levels):
-    """run the real code (sanitizer build) on lengths for which the model/theorem predicts a fault"""
+def san_build(ctx, levels):
+    """sanitizer build restricted to the static libraries the driver links (per level) — saves most of the build"""
+    mods = ["sqisigndim2", "sqisigndim2_heuristic", "sqisignhd", "dim2id2iso", "hd", "id2iso", "klpt", "precomp", "gf", "ec"]
+    tg = ["sqisign_%s_lvl%d" % (m, l) for l in levels for m in mods] + ["sqisign_quaternion_generic", "sqisign_intbig_generic", "sqisign_common_test"]
     try:
+        return ctx.build_repo("ref", san=True, targets=tg)
+    except vlib.BuildError:
+        return ctx.build_repo("ref", san=True)
+
+
+def probes(ctx, levels):
+    """lengths without a table row (corpus of the repaired defect 655114a) on a sanitizer build: since the repair
+    `ec_eval_even` must evaluate them with the naive chain; a fault here is a violation with the op as replay"""
+    try:
+        san_build(ctx, levels)
         for l in levels:
             exe = ctx.cc_harness(DRV, os.path.join(ctx.tmp, "drv_chain_san%d" % l), l, san=True)
             rows, _ = table_rows(l)
             f = LV[l]["f"]
-            for n, why in ((f - rows, "first length below the table range"), (4, "shortest length that reads the table"),
-                           (1, "zero-size VLA")):
+            for n, why in ((f - rows, "first length below the table range"), (4, "shortest length that would read the table"),
+                           (1, "zero-size VLA in the strategy routine"), (f + 1, "length above 2^f")):
                 op = "even.trace %x %x" % (l, n)
                 m = ctx.driver([op])[0]
-                rc, outs, err = vlib.run_c([exe], [op], env={"UBSAN_OPTIONS": "print_stacktrace=0", "ASAN_OPTIONS": "detect_leaks=0"})
-                fault = rc != 0 and ("AddressSanitizer" in err or "runtime error" in err)
+                rc, outs, err = run_c([exe], [op], timeout=60, env={"UBSAN_OPTIONS": "print_stacktrace=0", "ASAN_OPTIONS": "detect_leaks=0"})
+                fault = rc != 0 and ("AddressSanitizer" in err or "runtime error" in err or "TIMEOUT" in err)
                 ctx.case("probe:L%d:n=%d" % (l, n))
                 ctx.coverage.setdefault("probes", {})["L%d n=%d" % (l, n)] = dict(model_faults=m.endswith("E"), real_code_faults=fault)
-                if fault:
-                    kind = "global-buffer-overflow" if "global-buffer-overflow" in err else ("vla-bound" if "variable length array" in err else "sanitizer abort")
+                if fault or m.endswith("E"):
+                    kind = "global-buffer-overflow" if "global-buffer-overflow" in err else ("vla-bound" if "variable length array" in err else "sanitizer abort" if fault else "model fault")
                     ctx.violation("even:isog_len-out-of-table-range:L%d:n=%d" % (l, n),
                                   "ec_eval_even with isog_len=%d (%s): STRATEGY4[TORSION_PLUS_EVEN_POWER-isog_len] / VLA out of bounds (%s)" % (n, why, kind),
                                   dict(level=l, isog_len=n, op=op, sanitizer=err[-1200:], model_trace=m[-200:],
-                                       theorem="SqiProps.C09.L%d_even_out_of_range / L%d_even_chain_full_false" % (l, l)))
-                elif not m.endswith("E"):
-                    ctx.obligation("probe L%d n=%d: model predicts a fault" % (l, n), False, m[-100:])
+                                       theorem="SqiProps.C09.L%d_ec_eval_even_full" % l))
+                ctx.obligation("probe L%d n=%d (%s): no fault" % (l, n, why), not (fault or m.endswith("E")), err[-200:] if fault else "")
     except vlib.BuildError as e:
         ctx.log("probes skipped: sanitizer build failed: %s" % str(e)[:400])
         ctx.coverage["probes_skipped"] = str(e)[:200]
@@ -243,8 +317,7 @@ def probes(ctx, levels):
 
 # ------------------------------------------------------------------------------------------------ main
 def run(ctx):
-    load_extra_known(ctx, "C09")
-    ctx.trusted += ["tools/translate/tables.py (STRATEGY4 extraction)",
+    ctx.trusted += ["tools/translate/tables.py (STRATEGY4 extraction)", "tools/translate/evenguard.py (guard of ec_eval_even re-read from the C text)",
                     "hand model SqiModel.EvenChain tied by hook-trace correspondence (tools/harness/drv_chain.c) and by the end-to-end oracle",
                     "tools/props/chain_oracle.py (python big-int Velu oracle)",
                     "hooks: SQISIGN_VERIF_TRACE calls in ec_eval_even_strategy (guarded, add-only)"]
@@ -268,7 +341,7 @@ def run(ctx):
             classify_trace_disagreement(ctx, l, exes[l], n, d)
         k = 7 if ctx.quick else None
         lens = sample_lengths(ctx, l, rows, k) if k else list(range(1, f + 1))
-        run_e2e(ctx, l, exes[l], e2e_cases(ctx, l, lens), "strategy/naive/oracle")
+        run_e2e(ctx, l, exes[l], e2e_cases(ctx, l, lens) + singular_cases(ctx, l, rows, 8 if ctx.quick else 64), "ec_eval_even/naive/oracle")
         ctx.sample(dict(level=l, lengths=lens[:12], trace_lengths=len(ns)))
     probes(ctx, (1,) if ctx.quick else levels)
     ctx.coverage["levels"] = list(levels)
